@@ -1,5 +1,6 @@
 import GomlVerif.Driver.C05
 import GomlVerif.Driver.C08
+import GomlVerif.Driver.C06
 import GomlVerif.Driver.C10
 import GomlVerif.Driver.C12
 import GomlVerif.Driver.C15
@@ -15,6 +16,7 @@ def main (args : List String) : IO UInt32 := do
   | ["c05"] => Goml.Driver.C05.main; return 0
   | ["c08"] => Goml.Driver.C08.main; return 0
   | ["c08sim"] => Goml.Driver.C08.mainSim; return 0
+  | ["c06"] => Goml.Driver.C06.main; return 0
   | ["c10"] => Goml.Driver.C10.main; return 0
   | ["c12"] => Goml.Driver.C12.main; return 0
   | ["c15"] => Goml.Driver.C15.main; return 0
